@@ -231,3 +231,41 @@ Section Sizes.
     destruct hash32 as [h|]; cbn [is_some]; [rewrite (Hh h data eq_refl)|cbn [length]]; lia.
   Qed.
 End Sizes.
+
+(** *** the shape of a frame; the hash feature only sets the flag and appends the trailer *)
+Section Shape.
+  Variable cstate : Type.
+  Variable cblock : cstate -> list Z -> list Z * cstate.
+  Variable cskip : cstate -> list Z -> cstate.
+  Variable cfallback : cstate -> cstate.
+  Variable creset : cstate -> cstate.
+
+  Theorem compress_frame_shape lv slice wsize hash32 cs data script out cs' r' : (1 <= slice)%nat ->
+    compress_frame cstate cblock cskip cfallback creset lv slice wsize hash32 cs {| rd_data := data; rd_script := script |} = ROk (out, cs', r') ->
+    exists bs, enc_blocks cstate cblock cskip cfallback lv (creset cs) (blocks_of (S (length data)) slice data) = ROk (bs, cs') /\
+      out = frame_header_bytes (Z.max wsize MAX_BLOCK_SIZE) (is_some hash32) ++ bs ++ match hash32 with Some h => h data | None => [] end.
+  Proof.
+    intros Hs. unfold compress_frame. cbn [rd_data].
+    pose proof (compress_loop_spec cstate cblock cskip cfallback creset (S (length data)) lv slice (creset cs)
+                  {| rd_data := data; rd_script := script |} (frame_header_bytes (Z.max wsize MAX_BLOCK_SIZE) (is_some hash32)) Hs) as L.
+    cbn [rd_data] in L. specialize (L (Nat.lt_succ_diag_r _)).
+    destruct (compress_loop cstate cblock cskip cfallback (S (length data)) lv slice (creset cs) _ _) as [[[o c] rr]|e|e]; cbn [rbind]; [|discriminate|discriminate].
+    intros [= <- <- _]. cbn [drop_reader] in L.
+    destruct (enc_blocks cstate cblock cskip cfallback lv (creset cs) (blocks_of (S (length data)) slice data)) as [[bs cs2]|e|e]; cbn [rbind] in L; [|discriminate|discriminate].
+    injection L as -> ->. exists bs. split; [reflexivity|]. unfold frame_header_bytes. cbn [app]. reflexivity.
+  Qed.
+
+  (** same input, same compressor state: the frame built with the hash feature is the frame built without it, with
+      descriptor bit 2 set and the four checksum bytes appended; blocks are identical *)
+  Theorem hash_feature_only_adds_flag_and_trailer lv slice wsize h cs data script out1 c1 r1 out0 c0 r0 : (1 <= slice)%nat ->
+    compress_frame cstate cblock cskip cfallback creset lv slice wsize (Some h) cs {| rd_data := data; rd_script := script |} = ROk (out1, c1, r1) ->
+    compress_frame cstate cblock cskip cfallback creset lv slice wsize None cs {| rd_data := data; rd_script := script |} = ROk (out0, c0, r0) ->
+    exists bs, out0 = frame_header_bytes (Z.max wsize MAX_BLOCK_SIZE) false ++ bs /\
+               out1 = frame_header_bytes (Z.max wsize MAX_BLOCK_SIZE) true ++ bs ++ h data /\ c0 = c1.
+  Proof.
+    intros Hs H1 H0.
+    destruct (compress_frame_shape _ _ _ _ _ _ _ _ _ _ Hs H1) as (bs1 & E1 & O1).
+    destruct (compress_frame_shape _ _ _ _ _ _ _ _ _ _ Hs H0) as (bs0 & E0 & O0).
+    rewrite E1 in E0. injection E0 as <- <-. exists bs1. cbn [is_some] in *. rewrite app_nil_r in O0. repeat split; assumption.
+  Qed.
+End Shape.
